@@ -2,6 +2,7 @@
 C02 — a guard sees exactly what the previous guard for that key left.
 -/
 import Lockable.Proofs.Frame
+import Lockable.Proofs.SpecTrace2
 namespace Lockable
 
 /-- **Frame**: in every reachable state, no atomic action other than a guard method executed on a guard
@@ -66,5 +67,23 @@ theorem C02_gop (s : State) (h : Nat) (hd : Handle) (m : Entry) (op : GOp) :
 example :
     let s := run (State.init .lru) [.lookup 1 7, .gop 1 (.insert 5), .lookup 2 7, .enqueue 2, .stamp 1, .release 1, .acquire 2]
     (gop s 2 .value).2 = .optVal (some 5) ∧ absVal s 7 = some 5 := by decide
+
+/-- History form (Theorem C + `history_value_preserved`): in the abstract history of every run of the core model, whatever
+happens between the release of a guard of `k` and the next event that makes a guard of `k` — waiting, failing, cancelling,
+unlocking, evicting, scanning, anything on other keys — the value the next guard finds is the value the previous guard left. -/
+theorem C02_history_value (kind : Kind) (as : List Act) (k h₁ : Nat) (pre mid post : List SEv) (e₂ : SEv)
+    (hdec : evsRun (State.init kind) as = pre ++ SEv.release h₁ k :: (mid ++ e₂ :: post))
+    (hmid : ∀ e ∈ mid, e.makesGuard k = none) :
+    ∃ spR spG, applyEvs Spec.init (pre ++ [SEv.release h₁ k]) = some spR ∧ applyEvs spR mid = some spG ∧
+      (applyEv spG e₂).isSome ∧ spG.vals k = spR.vals k := by
+  have := lin_reachable kind as
+  rw [hdec] at this
+  exact history_value_preserved k h₁ pre mid post e₂ _ _ this hmid
+
+/-- non-vacuity of `C02_history_value`: guard 1 stores 5 and releases; 2 fails a try and cleans up, 3 waits and is granted the key -/
+example :
+    evsRun (State.init .hashMap)
+      [.lookup 1 7, .gop 1 (.insert 5), .lookup 3 7, .enqueue 3, .lookup 2 7, .tryKey 2, .stamp 1, .release 1, .cleanupFailed 2, .acquire 3] =
+      [.acquire 1 7, .write 1 7 (some 5), .wait 3 7] ++ SEv.release 1 7 :: ([] ++ SEv.grant 3 7 :: []) := by decide
 
 end Lockable
